@@ -33,7 +33,7 @@ def body_factory(tier, seed):
         GD.run_repeats(rep, cases, PROP, ("skip", "payload-skip", "bad-req", "bad-res"))
         # the outbound half (call()): histories on a real endpoint under the virtual clock
         from harness import gen_history as GH
-        hs = GH.HGen(tier, seed).all()[: (30 if tier == "quick" else 300)]
+        hs = GH.HGen(tier, seed).all()[: (40 if tier == "quick" else 300)]
         GH.run_histories(rep, hs, PROP + "h", PROP, O.c16_outbound, "VH16")
         # two endpoint classes in one process, same handler names, opposite flags, BOTH defined before either is
         # used: each keeps its own behaviour (skipping is scoped to the class that declared it)
